@@ -425,6 +425,47 @@ func c143(c *an.Ctx, p *an.Prog) {
 					bad = append(bad, strings.ToLower(f)+" overridden without being > 0")
 				}
 			}
+			// scryptauth.New keeps the key slice itself, not a copy: nothing in the constructor may write the buffer
+			key := extractOf(dec, 0)
+			rooted := func(t *an.Term) bool {
+				for t != nil {
+					if t.K == key.K {
+						return true
+					}
+					if (t.Op == "slice" || t.Op == "indexaddr") && len(t.Args) > 0 {
+						t = t.Args[0]
+						continue
+					}
+					break
+				}
+				return false
+			}
+			retained := scryptauthRetainsKey(p)
+			afterNew := false
+			for _, e := range s.Events {
+				if e.Kind == "call" && e.Callee == "gopkg.in/spreadspace/scryptauth.v2.New" {
+					afterNew = true
+					continue
+				}
+				if afterNew && !retained {
+					break // this version of the dependency copies the key: later writes cannot reach it
+				}
+				switch e.Kind {
+				case "store":
+					if e.Args[0].Op == "indexaddr" && rooted(e.Args[0]) {
+						bad = append(bad, "the decoded HMAC key buffer (kept by scryptauth.New, not copied) is overwritten in the constructor")
+					}
+				case "call", "defer":
+					for i, a := range e.Args {
+						if !rooted(a) {
+							continue
+						}
+						if w := writesArg(p, e, i); w != "" {
+							bad = append(bad, "the decoded HMAC key buffer (kept by scryptauth.New, not copied) is handed to "+shortName(e.Callee)+", which writes it ("+w+"): digests are computed with a different key than the configured one")
+						}
+					}
+				}
+			}
 			// returned hasher wraps that context
 			if rv := ret.Args[0]; rv.Op == "alloc" {
 				if ctx := s.MemKey("&" + rv.K + ".saCtx"); ctx == nil || ctx.K != extractOf(nw, 0).K {
@@ -609,4 +650,113 @@ func c145(c *an.Ctx, p *an.Prog) {
 		}
 	}
 	c.Check(len(leaks) == 0, "C14.5", "logs|no-password", "-", "no log statement of the store library or the agent takes a password value", strings.Join(uniqS(leaks), "; "))
+}
+
+// writesArg reports (non-empty) how the callee of the event may write the memory of its i-th operand: module
+// functions are inspected (stores through the parameter, copy/clear on it, handing it on; depth 3), library
+// functions are judged from the short list of those that fill a caller-supplied buffer.
+func writesArg(p *an.Prog, e an.Event, i int) string {
+	switch e.Callee {
+	case "builtin copy":
+		if i == 0 {
+			return "copy destination"
+		}
+		return ""
+	case "builtin clear":
+		return "clear"
+	case "crypto/rand.Read", "io.ReadFull", "io.ReadAtLeast", "invoke io.Reader.Read", "(*os.File).Read", "(*bufio.Reader).Read", "(*bytes.Buffer).Read", "(*bytes.Reader).Read", "math/rand.Read":
+		return "fills the buffer"
+	}
+	ci, ok := e.In.(ssa.CallInstruction)
+	if !ok {
+		return ""
+	}
+	callee := ci.Common().StaticCallee()
+	if callee == nil || !p.InRepo(callee) || len(callee.Blocks) == 0 {
+		return ""
+	}
+	j := i
+	if j >= len(callee.Params) {
+		return ""
+	}
+	return paramWritten(p, callee, callee.Params[j], 3)
+}
+
+func paramWritten(p *an.Prog, fn *ssa.Function, prm *ssa.Parameter, depth int) string {
+	rooted := func(v ssa.Value) bool {
+		for {
+			switch x := v.(type) {
+			case *ssa.IndexAddr:
+				v = x.X
+			case *ssa.Slice:
+				v = x.X
+			case *ssa.Phi:
+				for _, ed := range x.Edges {
+					if ed == ssa.Value(prm) {
+						return true
+					}
+				}
+				return false
+			default:
+				return v == ssa.Value(prm)
+			}
+		}
+	}
+	for _, b := range fn.Blocks {
+		for _, in := range b.Instrs {
+			switch x := in.(type) {
+			case *ssa.Store:
+				if _, isIdx := x.Addr.(*ssa.IndexAddr); isIdx && rooted(x.Addr) {
+					return "element store in " + fn.Name()
+				}
+			case ssa.CallInstruction:
+				cm := x.Common()
+				if bi, ok := cm.Value.(*ssa.Builtin); ok {
+					if (bi.Name() == "copy" || bi.Name() == "clear") && len(cm.Args) > 0 && rooted(cm.Args[0]) {
+						return bi.Name() + " in " + fn.Name()
+					}
+					continue
+				}
+				for k, a := range cm.Args {
+					if !rooted(a) {
+						continue
+					}
+					name := an.CalleeName(x)
+					switch name {
+					case "crypto/rand.Read", "io.ReadFull", "io.ReadAtLeast", "invoke io.Reader.Read", "math/rand.Read":
+						return name + " in " + fn.Name()
+					}
+					if cal := cm.StaticCallee(); cal != nil && p.InRepo(cal) && depth > 0 && k < len(cal.Params) {
+						if w := paramWritten(p, cal, cal.Params[k], depth-1); w != "" {
+							return w
+						}
+					}
+				}
+			}
+		}
+	}
+	return ""
+}
+
+// scryptauthRetainsKey: does scryptauth.New store its key parameter itself (not a copy) in the context? Read from the
+// dependency's own code, so that the buffer rule follows the vendored version.
+func scryptauthRetainsKey(p *an.Prog) bool {
+	for _, pk := range p.SSA.AllPackages() {
+		if pk.Pkg.Path() != "gopkg.in/spreadspace/scryptauth.v2" {
+			continue
+		}
+		fn := pk.Func("New")
+		if fn == nil || len(fn.Params) < 2 {
+			return true // unknown: assume the worse
+		}
+		for _, b := range fn.Blocks {
+			for _, in := range b.Instrs {
+				if st, ok := in.(*ssa.Store); ok && st.Val == ssa.Value(fn.Params[1]) {
+					return true
+				}
+			}
+		}
+		return false
+	}
+	return true
 }
